@@ -153,4 +153,5 @@ class DiscParallelLinearization(CallableParallelExecution[StrKeyMapping, _Worker
                     disc.io.data = output.io_data
                     disc.jac = output.jacobian
 
-        return [out.jacobian for out in ordered_outputs if out is not None or None]
+        # Keep the positions: the Jacobian of a failed discipline is None.
+        return [out.jacobian if out is not None else None for out in ordered_outputs]
